@@ -172,6 +172,39 @@ func ruleFieldBij(r *Run) {
 			}
 		}
 	}
+	// (1b) the read path converts, it does not round: a value rounded on the way out (to 0.1 mm, to an
+	// integer) is written back changed by the next read-modify-write setter, although that setter
+	// names a different field
+	for _, pk := range keysOfInfo(getM) {
+		gi := getM[pk]
+		bad := ""
+		for _, rs := range gi.all {
+			for v := range rs.Vals {
+				c, ok := v.(*ssa.Call)
+				if !ok {
+					continue
+				}
+				switch calleeName(c) {
+				case "math.Round", "math.Floor", "math.Ceil", "math.Trunc", "math.RoundToEven":
+					bad = calleeName(c) + " at " + p.pos(c.Pos())
+				}
+			}
+		}
+		if len(gi.data) == 0 {
+			continue
+		}
+		isFloat := false
+		if st, ok := gi.pos.(*ssa.Store); ok {
+			if b, ok := st.Val.Type().Underlying().(*types.Basic); ok && b.Info()&types.IsFloat != 0 {
+				isFloat = true
+			}
+		}
+		if !isFloat {
+			continue
+		}
+		r.Check("field-bij", pk+":no-rounding-on-read", gi.pos.Pos(), bad == "",
+			fmt.Sprintf("GetPageSettings computes %s from the stored twips; %s", pk, map[bool]string{true: "the value is converted, not rounded", false: "it is rounded on the way (" + bad + "): every read-modify-write setter then writes the rounded value back, so a call that names another field changes this one by up to the rounding step"}[bad == ""]))
+	}
 	// (2) every PageSettings field Set consumes is restored by Get
 	consumed := map[string]bool{}
 	for _, si := range setM {
